@@ -115,6 +115,11 @@ func (f *FileBackend) writeLoop() {
 	dest, err := OpenRotateFile(f.File, f.Mode, f.MaxSize)
 	if err != nil {
 		log.Errorf("Failed create destination file: %s", err)
+
+		// keep draining the queue, otherwise every Send would block forever
+		for range f.request {
+		}
+
 		return
 	}
 
